@@ -14,7 +14,7 @@ PROPERTY = {
     'bounds': {'base': 'fixed config with mappings 3 levels deep and a list holding a mapping',
                'write paths': '10 (existing list replaced by a list of the same length, existing leaf, new leaf under existing mapping, two new levels, through a list index to an existing / a new key, index out of range, new top-level key, existing leaf replaced by a list, existing mapping replaced by a scalar)',
                'flags': 'outer site (document root) allow_new {absent,T,F} x delete {absent,F} x safe {absent,F}; inner site (depth 1 or 2 on the written path) allow_new {absent,T,F}',
-               'cmdline': 'the same paths spelled a.b[i].c=value, values: int, string, list; default !notnew'},
+               'cmdline': 'the same paths spelled a.b[i].c=value plus 5 paths with two consecutive indices g[i][j] into a list of lists, values: int, string, list; default !notnew'},
     'outside': ["a !notnew tag on a node that is itself new (the statement speaks of content BELOW a !notnew node)", 'keys containing . [ = in command-line syntax', 'mapping values on the command line'],
     'per_split_timeout': {'quick': 600, 'thorough': 1800},
     'wall_budget': {'quick': 1500, 'thorough': 7000},
@@ -23,6 +23,10 @@ PROPERTY = {
 BASE_TEXT = '{a: {b: {c: 1, l: [1, {k: 2}]}, e: 5, m: {x: 3}}, t: 0}'
 BASE = {'a': {'b': {'c': 1, 'l': [1, {'k': 2}]}, 'e': 5, 'm': {'x': 3}}, 't': 0}
 PATHS = [['a', 'b', 'c'], ['a', 'b', 'zz'], ['a', 'zz', 'y'], ['a', 'b', 'l', 1, 'k'], ['a', 'b', 'l', 1, 'zz'], ['a', 'b', 'l', 5, 'k'], ['zz'], ['a', 'e'], ['a', 'm'], ['a', 'b', 'l']]
+# the command-line harness uses the same tree plus a list of lists (several consecutive indices in one component)
+CBASE_TEXT = BASE_TEXT[:-1] + ', g: [[1, 2, 3], [4, 5]]}'
+CBASE = dict(BASE, g=[[1, 2, 3], [4, 5]])
+CPATHS = PATHS + [['g', 0, 2], ['g', 1, 0], ['g', 2, 0], ['g', 0, 1], ['g', 1, 2]]
 VALUES = [('77', 77), ('[7, 8]', [7, 8]), ('txt', 'txt')]
 
 
@@ -139,9 +143,9 @@ def c08_notnew(split, pi, vi, j, n0p, n0, n1p, n1, d0p, u0p):
 
 def c08_cmdline(split, pi, vi, typo):
     reset()
-    pi = pick(pi, len(PATHS))
+    pi = pick(pi, len(CPATHS))
     vi = pick(vi, len(VALUES))
-    path = list(PATHS[pi])
+    path = list(CPATHS[pi])
     typo = pick(typo, 3)
     if typo == 1 and isinstance(path[0], str):
         path[0] = path[0] + 'x'            # mistyped first component
@@ -155,16 +159,16 @@ def c08_cmdline(split, pi, vi, typo):
         else:
             text += ('.' if text else '') + comp
     arg = '%s=%s' % (text, vtext)
-    note(args=[BASE_TEXT, arg])
-    pre = exists_prefix(BASE, path)
+    note(args=[CBASE_TEXT, arg])
+    pre = exists_prefix(CBASE, path)
     exp_err = (pre == 'bad') or pre < len(path)
     if not exp_err and isinstance(val, list):
         # the elements of a list value are paths of their own (path[i]) and must exist as well
-        exp_err = any(exists_prefix(BASE, path + [i]) != len(path) + 1 for i in range(len(val)))
-    exp = None if exp_err else set_path(BASE, path, val)
+        exp_err = any(exists_prefix(CBASE, path + [i]) != len(path) + 1 for i in range(len(val)))
+    exp = None if exp_err else set_path(CBASE, path, val)
     note(expected=repr(exp), exp_err=exp_err)
     try:
-        got = Config.build_from_cmdline(BASE_TEXT, arg)
+        got = Config.build_from_cmdline(CBASE_TEXT, arg)
     except ayerr.MergeError as e:
         reraise_internal(e)
         msg = str(e)
@@ -250,7 +254,7 @@ HARNESSES = {
                            lambda tier: [{}], doc='subtree replaced by a deleting node below a symbolic !notnew/!new root; keys incl. ones whose text spells an existing nested path',
                            witnesses=('built', 'merge_error')),
     'c08_cmdline': Harness('c08_cmdline', c08_cmdline,
-                           [('pi', 'int', 0, len(PATHS) - 1), ('vi', 'int', 0, len(VALUES) - 1), ('typo', 'int', 0, 2)],
-                           lambda tier: [{'_pre': 'pi == %d' % pi} for pi in range(len(PATHS))],
+                           [('pi', 'int', 0, len(CPATHS) - 1), ('vi', 'int', 0, len(VALUES) - 1), ('typo', 'int', 0, 2)],
+                           lambda tier: [{'_pre': 'pi == %d' % pi} for pi in range(len(CPATHS))],
                            doc='Config.build_from_cmdline(base, "path=value") for existing / mistyped paths through mappings and list indices', witnesses=('built', 'merge_error')),
 }
